@@ -132,6 +132,7 @@ class Engine:
                 k += 1
         self.npaths = 0
         self._feas_cache = {}
+        self._axiom_keys = set()
         self.flat_ordinals = {}
         fk = 0
         for n in ast.walk(fnode):
@@ -179,6 +180,12 @@ class Engine:
     def distinct(self, seq):
         i, j = z3.Ints("di!0 dj!0")
         return z3.ForAll([i, j], z3.Implies(z3.And(0 <= i, i < j, j < SQ.length(seq)), SQ.at(seq, i) != SQ.at(seq, j)))
+
+    def uses_axioms(self, fn, *args):
+        key = (fn.__name__,) + tuple(repr(a) for a in args)
+        if key not in self._axiom_keys:
+            self._axiom_keys.add(key)
+            self.axioms.extend(fn(*args))
 
     def site(self, node):
         return self._ord.get(id(node), -1)
@@ -460,6 +467,16 @@ class Engine:
         raise OutOfSubset(n, "identity test other than None/enum/bool")
 
     def equal(self, a, b, n, st):
+        for x, y in ((a, b), (b, a)):
+            if isinstance(x, tuple) and x and isinstance(x[0], str) and x[0] in ("emptyset", "emptylist", "emptydict") and isinstance(y, V):
+                if isinstance(y.ty, TSet):
+                    return y.t == z3.EmptySet(y.ty.elem.sort())
+                if isinstance(y.ty, TSeq):
+                    return SQ.length(y.t) == 0
+                if isinstance(y.ty, TDict):
+                    return SQ.length(y.ty.sort().keys(y.t)) == 0
+        if isinstance(a, tuple) and isinstance(b, tuple) and a and b and isinstance(a[0], str) and isinstance(b[0], str):
+            return z3.BoolVal(a[0] == b[0])
         if isinstance(a, tuple) and isinstance(b, tuple):
             if len(a) != len(b):
                 return z3.BoolVal(False)
@@ -517,6 +534,8 @@ class Engine:
 
     def coerce(self, v, ty, n=None):
         """Embed v into type ty (tuples into datatypes, values into options, ints into reals)."""
+        if isinstance(v, tuple) and v and isinstance(v[0], str) and v[0] in ("emptyset", "emptylist", "emptydict"):
+            return self.empty_of(ty)
         if isinstance(v, V):
             if v.ty == ty or (isinstance(v.ty, TSeq) and isinstance(ty, TSeq) and v.ty.elem == ty.elem):
                 return V(ty, v.t)
@@ -584,6 +603,10 @@ class Engine:
                     return V(a.ty, z3.SetIntersect(a.t, b.t))
                 if o == "-":
                     return V(a.ty, z3.SetDifference(a.t, b.t))
+            if isinstance(a.ty, TSeq) and a.ty.nodup and o in ("-", "|"):
+                from . import stdlib
+
+                return stdlib.oset_sub(self, a, b, n, st) if o == "-" else stdlib.oset_or(self, a, b, n, st)
             dunder = {"+": "__add__", "-": "__sub__", "*": "__mul__", "/": "__truediv__", "|": "__or__", "&": "__and__"}.get(o)
             k = self.reg.lookup_method(getattr(a.ty, "name", ""), dunder) if dunder else None
             if k is None and isinstance(a.ty, TSeq) and a.ty.nodup and dunder:
@@ -592,6 +615,10 @@ class Engine:
                 return self.apply_contract(k, [a, b], {}, n, st)
         if isinstance(a, tuple) and isinstance(b, tuple) and o == "+":
             return a + b
+        if isinstance(a, V) and isinstance(a.ty, TSeq) and a.ty.nodup and o in ("-", "|"):
+            from . import stdlib
+
+            return stdlib.oset_sub(self, a, b, n, st) if o == "-" else stdlib.oset_or(self, a, b, n, st)
         raise OutOfSubset(n, f"binop {o} on {a!r}, {b!r}")
 
     def ev_Tuple(self, n, st):
@@ -737,8 +764,14 @@ class Engine:
             def clamp(x):
                 return z3.If(x < 0, z3.If(ln + x < 0, z3.IntVal(0), ln + x), z3.If(x > ln, ln, x))
 
+            if self.spec_mode:
+                clamp = lambda x: x  # clause language: slice bounds are in range
             l = clamp(lo.t) if lo is not None else z3.IntVal(0)
             h = clamp(hi.t) if hi is not None else ln
+            if self.spec_mode:
+                rty = TStr if base.ty is TStr else TSeq(base.ty.elem)
+                body = SQ.take(base.t, h) if lo is None else SQ.extract(base.t, l, h - l)
+                return V(rty, body)
             cnt = z3.If(h - l < 0, z3.IntVal(0), h - l)
             rty = TStr if base.ty is TStr else TSeq(base.ty.elem)
             return V(rty, z3.simplify(SQ.extract(base.t, l, cnt)))
@@ -853,9 +886,16 @@ class Engine:
         self._comp_ctx = saved_ctx + ((j, rng, st),)
         try:
             self.bind_target(g.target, at(j), inner, n)
-            conds = [self.truthy(self.ev(c, inner), c) for c in g.ifs]
-            if conds:
-                inner.assume(z3.And(*conds))
+            conds = []
+            guard_of = {}  # id of local assumption -> number of filter conditions in force when it was established
+            for c in g.ifs:
+                before = len(inner.pc)
+                cv = self.truthy(self.ev(c, inner), c)
+                for h in inner.pc[before:]:
+                    guard_of[h.get_id()] = len(conds)
+                conds.append(cv)
+                inner.assume(cv)
+                guard_of[inner.pc[-1].get_id()] = -1  # the condition itself is not exported
             if kind == "dict":
                 kv = self.ev(n.key, inner)
                 vv = self.ev(n.value, inner)
@@ -867,10 +907,16 @@ class Engine:
         base = len(st.pc)
         local = [h for h in inner.pc if not any(h.eq(o) for o in st.pc)]
         idxs = [c[0] for c in saved_ctx] + [j]
+        elem_j = at(j)
+        jpat = [elem_j.t] if isinstance(elem_j, V) and elem_j.t is not None and z3.is_app(elem_j.t) and not z3.is_const(elem_j.t) else []
         for h in local:
             if h.eq(z3.simplify(rng)) or h.eq(rng):
                 continue
-            st.assume(z3.ForAll([j], z3.Implies(z3.And(rng, *conds), h)))
+            ng = guard_of.get(h.get_id(), len(conds))
+            if ng < 0:
+                continue
+            body_h = z3.Implies(z3.And(rng, *conds[:ng]), h)
+            st.assume(z3.ForAll([j], body_h, patterns=jpat) if jpat else z3.ForAll([j], body_h))
         if kind == "dict":
             kt, vt = self.type_of(kv, n), self.type_of(vv, n)
             dty = TDict(kt, vt)
@@ -901,9 +947,24 @@ class Engine:
         else:
             # filter: membership characterisation (+ length bound; order preservation is not encoded)
             x = z3.Const(f"cx!{st.fresh_n}", et.sort())
-            st.assume(z3.ForAll([x], SQ.has(res.t, x) == z3.Exists([j], z3.And(0 <= j, j < ln, *conds, bterm == x)), patterns=[SQ.has(res.t, x)]))
+            pats = [SQ.has(res.t, x)]
+            if isinstance(it, V) and isinstance(it.ty, TSeq) and z3.simplify(bterm).eq(z3.simplify(SQ.at(it.t, j))):
+                pats.append(SQ.has(it.t, x))  # identity-bodied filter: also instantiate from membership in the source
+            inner_ex = z3.Exists([j], z3.And(0 <= j, j < ln, *conds, bterm == x), patterns=jpat) if jpat else z3.Exists([j], z3.And(0 <= j, j < ln, *conds, bterm == x))
+            st.assume(z3.ForAll([x], SQ.has(res.t, x) == inner_ex, patterns=pats))
             st.assume(SQ.length(res.t) <= ln)
-            self.notes.append(f"line {n.lineno}: filtered comprehension encoded by membership + length bound only")
+            # order: a strictly increasing bijection between result positions and kept source positions
+            src = z3.Function(f"src!{st.fresh_n}", z3.IntSort(), z3.IntSort())
+            dst = z3.Function(f"dst!{st.fresh_n}", z3.IntSort(), z3.IntSort())
+            q, q2 = z3.Int(f"fq!{st.fresh_n}"), z3.Int(f"fq2!{st.fresh_n}")
+            keep = z3.And(*conds)
+            keep_at = lambda e: z3.substitute(keep, (j, e))
+            b_at = lambda e: z3.substitute(bterm, (j, e))
+            rl = SQ.length(res.t)
+            st.assume(z3.ForAll([q], z3.Implies(z3.And(0 <= q, q < rl), z3.And(0 <= src(q), src(q) < ln, keep_at(src(q)), SQ.at(res.t, q) == b_at(src(q)), dst(src(q)) == q)),
+                                patterns=[src(q)]))
+            st.assume(z3.ForAll([q], z3.Implies(z3.And(0 <= q, q < ln, keep_at(q)), z3.And(0 <= dst(q), dst(q) < rl, src(dst(q)) == q)), patterns=[dst(q)]))
+            st.assume(z3.ForAll([q, q2], z3.Implies(z3.And(0 <= q, q < q2, q2 < rl), src(q) < src(q2)), patterns=[z3.MultiPattern(src(q), src(q2))]))
         self.merge_fresh(st, inner)
         return res
 
